@@ -29,6 +29,8 @@ def run(ctx):
         ctx.guard("C17", "complete", lambda: fields.dest_complete(ctx, prog, scope=r"internals::compare::|<internals::compare::", floor=1))
         ctx.guard("C17", "vis", lambda: vis.representation_private(ctx, prog))
         ctx.guard("C17", "panic-pure", lambda: validate.panic_purity(ctx, prog))
+        if c == "dbg":
+            ctx.guard("C17", "contracts", lambda: validate.constructors(ctx, prog))
         ctx.guard("C17", "traits", lambda: vis.trait_census(ctx, prog, scope='position_array::|FuzzyHashCompareTarget'))
         ctx.guard("C17", "casts", lambda: casts.census(ctx, prog, scope='compare::position_array::', floor=3))
     if ctx.tier == "thorough":
